@@ -1,0 +1,54 @@
+//! Verification probes, only compiled with the (off by default) `verif_hooks` feature.
+//!
+//! Records, per thread, every place where the compiler walks a hash-based collection: which
+//! site, how many keys, and a fingerprint of the raw iteration order. An external harness uses
+//! this to measure whether its workload reaches hash-order-sensitive code under different hash
+//! seeds. The probes only observe; they never change what the compiler does.
+
+use std::cell::RefCell;
+use std::hash::{Hash, Hasher};
+
+/// One observed walk over a hash-based collection.
+#[derive(Debug, Clone, PartialEq, Eq)]
+pub struct HashIterProbe {
+    /// The name of the iteration site.
+    pub site: &'static str,
+    /// The number of keys that were iterated.
+    pub keys: usize,
+    /// A fingerprint of the keys in raw iteration order (independent of the hash seed for a
+    /// given order, different for different orders).
+    pub order_fingerprint: u64,
+}
+
+thread_local! {
+    static PROBES: RefCell<Vec<HashIterProbe>> = const { RefCell::new(Vec::new()) };
+}
+
+/// Records the raw iteration order of `keys` at the specified site.
+pub fn hash_iter<K: Hash>(site: &'static str, keys: impl Iterator<Item = K>) {
+    let mut n = 0;
+    let mut fp: u64 = 0xcbf2_9ce4_8422_2325;
+    for k in keys {
+        // SipHash with fixed keys: a function of the key only, not of the process.
+        #[allow(deprecated)]
+        let mut h = std::hash::SipHasher::new();
+        k.hash(&mut h);
+        fp = (fp ^ h.finish()).wrapping_mul(0x0000_0100_0000_01B3).rotate_left(17);
+        n += 1;
+    }
+    PROBES.with(|p| {
+        let mut p = p.borrow_mut();
+        if p.len() < 1 << 16 {
+            p.push(HashIterProbe {
+                site,
+                keys: n,
+                order_fingerprint: fp,
+            });
+        }
+    });
+}
+
+/// Returns and clears the probes recorded by the current thread.
+pub fn drain() -> Vec<HashIterProbe> {
+    PROBES.with(|p| std::mem::take(&mut *p.borrow_mut()))
+}
